@@ -499,6 +499,13 @@ def hextetsVal : List Str → Option Nat
     | some v, some r => some (v * 2 ^ (16 * rest.length) + r)
     | _, _ => none
 
+/-- `for i in range(1, len(parts) - 1): if not parts[i]: …` — the indices of the empty parts
+other than the first and the last one; called on `parts[1:]` with `i = 1` -/
+def innerEmptyFrom : Nat → List Str → List Nat
+  | _, [] => []
+  | _, [_] => []
+  | i, p :: q :: rest => (if p.isEmpty then [i] else []) ++ innerEmptyFrom (i + 1) (q :: rest)
+
 /-- `IPv6Address._ip_int_from_string` -/
 def ipv6FromString (s : Str) : Option Nat :=
   if s.isEmpty then none else
@@ -516,8 +523,7 @@ def ipv6FromString (s : Str) : Option Nat :=
   | some parts =>
     if parts.length > 9 then none else
     -- indices 1 .. len-2 that are empty
-    let inner := (List.range parts.length).filter fun i =>
-      1 ≤ i && i + 1 < parts.length && (parts.getD i []).isEmpty
+    let inner := innerEmptyFrom 1 parts.tail
     match inner with
     | _ :: _ :: _ => none                      -- more than one '::'
     | [skip] =>
